@@ -292,6 +292,7 @@ cat_status cat_is_unsolicited_event_buffered(struct cat_object *self, struct cat
 static const char *get_new_line_chars(struct cat_object *self)
 {
         static const char *crlf = "\r\n";
+        CAT_VERIF_GHOST(get_new_line_chars)
         return &crlf[(self->cr_flag != false) ? 0 : 1];
 }
 
